@@ -68,6 +68,34 @@ claim("C19", "exploration",
       "repr is reflective string building (bounded only); Python's reflected-operator rule assumed.",
       "contract-based deductive verification (==/hash) + bounded all-pairs checking", "DESIGN 9/C19")
 
+claim("C05", "exploration",
+      "token_type is proved against the reference SGR semantics for every integer parameter (symbolic), every pair of representative "
+      "parameters and the empty list; the regex-driven parse and the round trip from_str(str(f)) are decided by bounded enumeration: "
+      "all attribute dicts on texts with newlines, multi-run values, every grammar string of <=3 items, back-to-back parses.",
+      "parse/peel_off_esc_code regexes not under deductive contract; oracle = ECMA-48 interpreter (spec/sgr.py).",
+      "contract-based deductive verification of token_type + bounded enumeration against a reference SGR interpreter", "DESIGN 9/C05")
+claim("C11", "exploration",
+      "ChunkSplitter.request is proved against its contract (next unread characters plus at most one pad, fits, greedy, bookkeeping) "
+      "for all runs; the generator that fills lines across runs is decided by an exhaustive bounded suite (strings <=5 over narrow/"
+      "wide/combining x layouts x columns 2..4, interleaved iterators).",
+      "Assumed additivity of wcswidth and character widths 0..2; the generator _width_aware_splitlines is bounded only.",
+      "contract-based deductive verification of the splitter + exhaustive bounded checking of the line filler", "DESIGN 9/C11")
+claim("C15", "exploration",
+      "Bounded only: 34 delegated str methods, split (literal and regex), splitlines, ljust/rjust, join on random and enumerated values "
+      "against str on the text, per-character formatting of pieces, shared/invented formatting.",
+      "__getattr__ delegation and regex splitting are outside the deductive subset (stated in DESIGN 10); known finding: other line boundaries.",
+      "bounded run-time checking against str (no deductive claim: reflection/regex driven)", "DESIGN 9/C15")
+claim("C16", "exploration",
+      "Bounded only: every string <=6 over {a,b,space,tab,newline} x columns 1..4 plus random multi-format values against an independent "
+      "greedy wrap on the per-character list.",
+      "linesplit is regex-driven list building, outside the deductive subset (DESIGN 10).",
+      "exhaustive bounded checking against a reference wrap (no deductive claim)", "DESIGN 9/C16")
+claim("C17", "exploration",
+      "Bounded only, exhaustive: every string of length <=5 (<=6 thorough, 17.9M) over a 16-symbol escape alphabet plus real-world samples "
+      "against an independent escape-sequence scanner.",
+      "from_str/parse/remove_ansi are regex-driven, outside the deductive subset (DESIGN 10).",
+      "exhaustive bounded checking against an independent scanner (no deductive claim)", "DESIGN 9/C17")
+
 ALL = [f"C{i:02d}" for i in range(1, 21)]
 NA_REASON = "check not built yet in this session (work in progress; see DESIGN.md section 9 for the plan)"
 m = dict(version=1, setup_cmd="bin/setup",
